@@ -142,7 +142,7 @@ macro_rules! dir_row { ($e:ident) => { directed::<$e> as RandomFn } }
 
 fn type_directed(g: &mut Gen, st: &mut Stats) -> CaseResult {
     static T: std::sync::OnceLock<Vec<RandomFn>> = std::sync::OnceLock::new();
-    let t = T.get_or_init(|| g_codec::for_each_entry!(dir_row));
+    let t = T.get_or_init(|| g_codec::for_each_core_entry!(dir_row));
     t[g.below(t.len())](g, st)
 }
 
